@@ -125,6 +125,7 @@ impl<'a> Executor<'a> {
             Acc::bump(&mut a.faults_fired, "stale_output_files_present", 1);
         }
         Acc::bump(&mut a.faults_fired, "clock_jump", r.io.clock_jumps);
+        Acc::bump(&mut a.probes, "seeded_entropy_reads", r.io.seeded_entropy_reads);
         Acc::bump(&mut a.faults_fired, "short_read", r.io.short_reads);
         Acc::bump(&mut a.faults_fired, "read_eintr", r.io.read_eintr);
         Acc::bump(&mut a.faults_fired, "read_eio", r.io.read_eio);
